@@ -33,6 +33,16 @@ pub fn observe(g: &UltraGraph<i64>, b: usize, out: &mut Vec<i128>) {
             Ok(it) => { let l: Vec<usize> = it.collect(); out.push(l.len() as i128); out.extend(l.iter().map(|x| *x as i128)); }
         }
     }
+    // indices beyond 32 bits (index + 2^32) must not alias live nodes / edges: any hit is reported as 777002 count
+    let big = 1usize << 32;
+    let mut alias = 0i128;
+    for i in 0..b {
+        if g.contains_node(i + big) || g.get_node(i + big).is_some() || g.outgoing_edges(i + big).is_ok() { alias += 1; }
+        for j in 0..b {
+            if g.contains_edge(i + big, j) || g.contains_edge(i, j + big) { alias += 1; }
+        }
+    }
+    if alias > 0 { out.push(777002); out.push(alias); }
     out.push(g.contains_root_node() as i128);
     out.push(g.get_root_index().map(|x| x as i128).unwrap_or(-1));
     out.push(g.get_root_node().map(|x| *x as i128).unwrap_or(-1));
@@ -114,6 +124,24 @@ pub fn run_big(args: &[i128], cap: usize) -> Vec<i128> {
         let p = *p as usize;
         out.push(g.contains_node(p) as i128);
         out.push(g.get_node(p).map(|v| *v as i128).unwrap_or(-1));
+    }
+    out
+}
+
+// selected shortest-path queries after a history. line: spathq_<cap> nops (code x y z)*nops (s t)*
+// output: the return values of the ops, then per query: -1 | len n1..nlen
+pub fn run_spathq(args: &[i128], cap: usize) -> Vec<i128> {
+    let nops = args[0] as usize;
+    let mut g: UltraGraph<i64> = mk_graph(cap);
+    let mut out = Vec::new();
+    for op in args[1..1 + 4 * nops].chunks(4) {
+        out.push(apply(&mut g, op));
+    }
+    for q in args[1 + 4 * nops..].chunks(2) {
+        match g.shortest_path(q[0] as usize, q[1] as usize) {
+            None => out.push(-1),
+            Some(p) => { out.push(p.len() as i128); out.extend(p.iter().map(|x| *x as i128)); }
+        }
     }
     out
 }
